@@ -524,6 +524,69 @@ def stage_expr_roots_and_compare(ctx: Ctx):
                                       {'start_src': src, 'how': f'put_slice({code!r}, {i}, {i}, "_all", one=True, op="!=", op_side={side!r})', 'src_now': root.src, **bad})
 
 
+ARGLIKE_LAYOUTS = ['f(\n        a,\n  *b,\n  c=1)', 'f(a, *b, c=1)', 'f(\n            a,\n        k=0,\n    *b,\n  c=1,\n **d)', 'class K(\n        A,\n  *B,\n  m=M): pass', 'f(aa,\n  k=1, *b,\n j=2)',
+                   'g(\n              é,\n   ü=1,\n        *ö)']
+
+
+def stage_arglike_kind_change(ctx: Ctx):
+    """deterministic: ONE element of Call._args / ClassDef._bases replaced through the virtual field, also by an element of the OTHER kind (positional <-> keyword: the node moves between
+    the two real lists), in layouts whose columns do not grow with the source order (one per line, ragged): the tree equals the parse of its source (order of both lists), every child sits
+    at the index its pfield names, and next() / prev() walk the arguments in source order"""
+    import fst
+    for src in ARGLIKE_LAYOUTS:
+        probe = fst.FST(src, 'exec')
+        holder = lambda r: r.body[0] if isinstance(r.body[0].a, ast.ClassDef) else r.body[0].value
+        field = '_bases' if isinstance(probe.body[0].a, ast.ClassDef) else '_args'
+        n = len(getattr(holder(probe), field))
+        for i in range(n):
+            for new in ('x=2', 'n', '*n', '**n', 'y=(3,\n 4)', 'ff(\n 1)'):
+                for how in ('setitem', 'put'):
+                    root = fst.FST(src, 'exec')
+                    h = holder(root)
+                    rec = {'src': src, 'field': field, 'index': i, 'new': new, 'how': how}
+                    try:
+                        if how == 'setitem':
+                            getattr(h, field)[i] = new
+                        else:
+                            h.put(new, i, field)
+                    except Exception as e:
+                        d = reparse_diffs(root)
+                        if d:
+                            ctx.violation(f'raise-dirty|arglike-kind-change|{type(e).__name__}', 'a refused put left an inconsistent tree', {**rec, 'error': repr(e)[:200], 'diffs': d[:3]})
+                        continue
+                    ctx.tick(('arglike-kind', src, i, new, how), 'sweep:arglike-kind-change')
+                    d = reparse_diffs(root)
+                    if d:
+                        ctx.violation('struct|arglike-kind-change', 'after replacing one call argument / class base through the virtual field the tree differs from the parse of its source', {**rec, 'result_src': root.src, 'diffs': d[:4]})
+                        continue
+                    bad = []
+                    for f in root.walk(True):
+                        if f.parent is not None:
+                            pf = f.pfield
+                            v = getattr(f.parent.a, pf.name, None)
+                            if (v[pf.idx] if pf.idx is not None and isinstance(v, list) and pf.idx < len(v) else v) is not f.a:
+                                bad.append(f'{type(f.a).__name__} {f.src[:20]!r}: pfield {pf.name}[{pf.idx}] does not hold it')
+                    fresh = fst.FST(root.src, 'exec')
+                    hf = holder(fresh)
+                    seq = lambda hh: [c.src for c in hh.walk(True, self_=False, recurse=False)]
+                    if seq(h) != seq(hf):
+                        bad.append(f'children in walk order {seq(h)} != fresh tree {seq(hf)}')
+                    nx = lambda hh: [c.src for c in _chain(hh)]
+                    if nx(h) != nx(hf):
+                        bad.append(f'next() chain {nx(h)} != fresh tree {nx(hf)}')
+                    if bad:
+                        ctx.violation('navigation|arglike-kind-change', 'after replacing one call argument / class base the navigation data (pfield / walk / next) disagrees with a fresh tree of the same source', {**rec, 'result_src': root.src, 'problems': bad[:4]})
+
+
+def _chain(h):
+    c = h.first_child()
+    out = []
+    while c is not None and len(out) < 50:
+        out.append(c)
+        c = c.next()
+    return out
+
+
 def stage_cache_corr(ctx: Ctx):
     """models/Cache.v vs the real loc cache on real nodes: ask / offset histories, answers must agree"""
     import fst
@@ -585,6 +648,7 @@ def run(ctx: Ctx):
     run_guarded(ctx, stage_slice_sweep)
     run_guarded(ctx, stage_docstr_and_raw_tails)
     run_guarded(ctx, stage_expr_roots_and_compare)
+    run_guarded(ctx, stage_arglike_kind_change)
 
 
 def replay(path):
